@@ -146,6 +146,14 @@ def judge_residue(sysm, problems):
             problems.append(("residue:client:iocb-queue", {"queues": [str(k) for k in q]}))
 
 
+def judge_stale_timers(sysm, problems):
+    """No step of the execution left a finished transaction with a timer in the task manager."""
+    stale = getattr(sysm, "stale_timers", None)
+    if stale:
+        problems.append(("timer-of-a-finished-transaction-still-scheduled:%s" % stale[0][1],
+                         {"first seen at": stale[0][0], "transaction": stale[0][1], "state": stale[0][2], "armed for": stale[0][3], "more": stale[1:]}))
+
+
 def judge_late_frames(sysm, got, problems):
     """After the outcome of a request was delivered, the requesting stack emits nothing more for it."""
     client_mac = str(sysm.client.address)
